@@ -64,7 +64,7 @@ ROWS = [
     ("log::metric::list_metric_files_conditional", "unwrap", ["call:to_str", "param:file_pattern"], "the pattern path is built from a String (PathBuf::from(String))", True),
     ("log::metric::filename_comparator", "unwrap", ["call:file_name"], "compared paths are base_dir.join(name): they have a final component", True),
     ("log::metric::filename_comparator", "unwrap", ["call:to_str"], "names were pushed only on the name.to_str() == Some branch", True),
-    ("log::metric::filename_comparator", "index", ["call:split"], "names passed filename_matches for one base filename: <svc>-metrics.log[.pidN].<date>[.n] has >= 3 (>= 4 with a pid part, for both names alike) dot-separated parts", True),
+    ("log::metric::filename_comparator", "index", ["call:split", "const:2"], "names passed filename_matches for one base filename: <svc>-metrics.log.<rest> has >= 3 dot-separated parts, so parts[2] exists; a deeper constant index (parts[3] of a name without pid part, D26) is NOT covered by this row", True),
     ("log::metric::reader::MetricLogReader>::read_metrics", "index", ["param:file_no", "param:name_list"], "first read: file_no is the searcher's loop variable i in file_no..filenames.len() over the same list (search_offset_and_read), and the list is non-empty; later reads are guarded by `file_no >= name_list.len() -> break` (local)", True),
     ("log::metric::reader::MetricLogReader>::read_metrics_by_end_time", "index", ["param:file_no", "param:name_list"], "as for read_metrics", True),
     ("log::metric::reader::get_latest_second", "index", ["param:items", "call:len"], "items[len - 1] on the !is_empty() path", True),
